@@ -75,6 +75,7 @@ def dispatch (line : String) : String :=
     | "jcodec" => JCodecDrv.codecLine payload
     | "jaccept" => JCodecDrv.acceptLine payload
     | "bmerge" => BoundM.mergeLine payload
+    | "cmerge" => BoundM.countLine payload
     | "durfmt" => DurT.fmtLine payload
     | "durval" => DurT.valLine payload
     | "docsplit" => DocLines.splitLineLine payload
